@@ -58,6 +58,19 @@ int main(int argc, char **argv) {
     else if (a == "--known") { std::string k = next(); size_t p = 0; while (p <= k.size()) { size_t q = k.find(',', p); if (q == std::string::npos) q = k.size(); if (q > p) g_known.insert(k.substr(p, q - p)); p = q + 1; } }
     else if (a == "-v") verbose = true;
   }
+  // helper mode for the cross-process lock probe (C20): try to open an existing database, report through the exit code
+  for (int i = 1; i + 1 < argc; i++) {
+    if (std::string(argv[i]) == "--lockprobe") {
+      DbConfig pc;
+      for (int j = 1; j + 1 < argc; j++) if (std::string(argv[j]) == "--cmp") pc.cmp = argv[j + 1];
+      DbOptions po;
+      po.build(pc);
+      po.opt.create_if_missing = 0;
+      ldb_t *pdb = nullptr;
+      int prc = ldb_open(argv[i + 1], &po.opt, &pdb);
+      _exit(prc == LDB_OK ? 7 : 0);
+    }
+  }
   signal(SIGPIPE, SIG_IGN);
   setvbuf(stdout, nullptr, _IOLBF, 0);
   sched_set_fatal_hook(fatal_hook);
